@@ -591,8 +591,9 @@ _B = {"kernel_quantizer": "ternary", "depthwise_quantizer": "binary",
       "recurrent_activation_quantizer": "quantized_bits(3,0,1)"}
 
 
-def lattice():
-  """Deterministic single-class cases."""
+def lattice(quick=False):
+  """Deterministic single-class cases (quick: use_bias=False and Sequential
+  variants only with the class-entry mode)."""
   cases = []
   for shape, cls, kw, tail in _templates():
     biases = [True, False] if cls in (
@@ -616,6 +617,9 @@ def lattice():
         if api == "sequential":
           desc["seq_input"] = "kw"
         for mode in ("none", "class", "name", "both", "hidden", "with_act"):
+          if quick and mode != "class" and (ub is False or
+                                            api == "sequential"):
+            continue
           qd = _lattice_dict(target, mode)
           if qd is None:
             continue
@@ -701,7 +705,7 @@ def case_strategy(ctx):
 
 
 def run(ctx):
-  lat = lattice()
+  lat = lattice(ctx.quick)
   ctx.info["lattice_size"] = len(lat) if ctx.idx == 0 else 0
   for case in ctx.shard(lat):
     if ctx.time_left() <= 0:
